@@ -141,6 +141,19 @@ static inline Shape randomShape(Rng& r, int minVars, int maxVars, int maxSize, l
     }
 }
 
+// As randomShape, but one case in six has a "wide" variable (10..40 values) next to at most two small ones: node sizes
+// beyond one decimal digit (exchange-file index parsing, sparse/full packing thresholds, wide minterm partitions).
+static inline Shape randomShapeW(Rng& r, int minVars, int maxVars, int maxSize, long maxPoints) {
+    if (!r.chance(1, 6)) return randomShape(r, minVars, maxVars, maxSize, maxPoints);
+    for (;;) {
+        Shape s; int n = r.range(minVars, std::min(maxVars, 3));
+        s.sizes.assign(n + 1, 0);
+        for (int v = 1; v <= n; v++) s.sizes[v] = r.range(2, 3);
+        s.sizes[r.range(1, n)] = r.range(10, int(std::min(40L, maxPoints)));
+        if (s.npoints() <= maxPoints) return s;
+    }
+}
+
 // ------------------------------------------------------------------------------------
 // Model: values
 // ------------------------------------------------------------------------------------
